@@ -42,6 +42,12 @@ def main():
     props = a.props.split(",") if a.props else [prop]
     out = os.path.join(V, "seeded", name)
     os.makedirs(out, exist_ok=True)
+    prev_suite = None
+    try:        # an earlier validation of the very same patch (its test-suite result is reused with --skip-suite)
+        if open(os.path.join(out, "patch.diff")).read() == open(os.path.join(src, "patch.diff")).read():
+            prev_suite = json.load(open(os.path.join(out, "meta.json")))["validation"].get("suite")
+    except Exception:  # noqa
+        pass
     for f in ("patch.diff", "demo.py", "meta.json"):
         shutil.copy(os.path.join(src, f), os.path.join(out, f))
     patch = os.path.join(out, "patch.diff")
@@ -67,8 +73,10 @@ def main():
     finally:
         if not a.scratch:
             sh(["git", "-C", "/repo", "worktree", "remove", "--force", wt])
+    if a.skip_suite and prev_suite:
+        log["suite"] = dict(prev_suite, reused_from_earlier_validation_of_the_same_patch=True)
     log["valid_seed"] = bool(log["demo_clean"]["rc"] == 0 and log["apply"]["rc"] == 0 and log["demo_changed"]["rc"] != 0
-                             and (a.skip_suite or log["suite"]["baseline_ok"]))
+                             and ((a.skip_suite and not prev_suite) or log["suite"]["baseline_ok"]))
 
     # 2. run the checks against it
     log["checks"] = {}
